@@ -480,6 +480,7 @@ func TestVerifC21(t *testing.T) {
 	}
 	_ = os.MkdirAll(dir, 0o777)
 	defer os.RemoveAll(dir)
+	c.c21SaveHistories(files, dir) // save histories through one living storage object (verif_c21_saves_test.go)
 	var fileSeq atomic.Int64
 	viaFile := func(kind, desc string, img []byte) {
 		// the same image through the real file back end (fresh object, real ReadAt)
